@@ -45,6 +45,7 @@ StepOf(f) ==
     \/ Outcome(LAMBDA ok : ClClone(f, ok))
     \/ Outcome(LAMBDA ok : ClRmTmp(f, ok))
     \/ Outcome(LAMBDA ok : Times(f, ok))
+    \/ LockUnsupported(f) /\ nfaults < MaxFaults /\ nfaults' = nfaults + 1
     \/ MvCheck(f) /\ UNCHANGED nfaults
     \/ Outcome(LAMBDA ok : Mkdir(f, "T", ok))
     \/ Outcome(LAMBDA ok : MvRename(f, ok))
